@@ -120,6 +120,17 @@ func (c *controller) setBalancer(l log.Logger, name string, svcRo *v1.Service, _
 		syncStateRes = controllers.SyncStateReprocessAll
 	}
 
+	if len(prevIPs) != 0 && !c.isServiceAllocated(name) {
+		// Only reprocess all if the previous IP(s) are still contained within a pool.
+		if c.ips.PoolForIP(prevIPs) != nil {
+			// convergeBalancer may deallocate our service and this means it did it.
+			// if the service was deallocated, it may have left room
+			// for another one, so we reprocess
+			level.Info(l).Log("event", "serviceUpdated", "msg", "removed loadbalancer from service, services will be reprocessed")
+			syncStateRes = controllers.SyncStateReprocessAll
+		}
+	}
+
 	if reflect.DeepEqual(svcRo, svc) {
 		level.Debug(l).Log("event", "noChange", "msg", "service converged, no change")
 		return syncStateRes
@@ -133,17 +144,6 @@ func (c *controller) setBalancer(l log.Logger, name string, svcRo *v1.Service, _
 		if strings.HasPrefix(key, DeprecatedAnnotationPrefix) {
 			level.Warn(l).Log("event", "deprecatedAnnotation", "annotation", key, "msg", "The used annotation is deprecated. Support might get removed in future versions")
 			c.client.Errorf(svcRo, "deprecatedAnnotation", "Service uses deprecated annotation %s", key)
-		}
-	}
-
-	if len(prevIPs) != 0 && !c.isServiceAllocated(name) {
-		// Only reprocess all if the previous IP(s) are still contained within a pool.
-		if c.ips.PoolForIP(prevIPs) != nil {
-			// convergeBalancer may deallocate our service and this means it did it.
-			// if the service was deallocated, it may have left room
-			// for another one, so we reprocess
-			level.Info(l).Log("event", "serviceUpdated", "msg", "removed loadbalancer from service, services will be reprocessed")
-			syncStateRes = controllers.SyncStateReprocessAll
 		}
 	}
 
